@@ -15,6 +15,8 @@ import (
 	"sort"
 	"strings"
 	"time"
+
+	"golang.org/x/sys/unix"
 )
 
 // The thresholds of the property statement (NOT read from the code).
@@ -39,6 +41,9 @@ type Node struct {
 	MAge     int64   `json:"mage"`             // modification time age (s)
 	AAge     int64   `json:"aage"`             // access time age (s)
 	Children []*Node `json:"children,omitempty"`
+	// LinkAge, for symlinks: age of the link's own timestamps (0: the link is
+	// brand new).
+	LinkAge int64 `json:"link_age,omitempty"`
 }
 
 // Item is one top-level object of an area of the data directory.
@@ -126,7 +131,15 @@ func materialise(n *Node, dir, outside string, now time.Time) error {
 			}
 		}
 	case "symlink":
-		return os.Symlink(strings.ReplaceAll(n.Target, "${OUT}", outside), p)
+		if err := os.Symlink(strings.ReplaceAll(n.Target, "${OUT}", outside), p); err != nil {
+			return err
+		}
+		if n.LinkAge != 0 {
+			// The link's own timestamps (os.Chtimes would follow the link).
+			t := unix.NsecToTimespec(now.Add(-time.Duration(n.LinkAge) * time.Second).UnixNano())
+			return unix.UtimesNanoAt(unix.AT_FDCWD, p, []unix.Timespec{t, t}, unix.AT_SYMLINK_NOFOLLOW)
+		}
+		return nil
 	default:
 		return fmt.Errorf("unknown node kind %q", n.Kind)
 	}
@@ -273,11 +286,16 @@ func (it *Item) Expectation(ref, t0, t1 time.Time) Expect {
 		case "cache-file":
 			return decide(n.MAge, ref, t0, t1, cacheAgeLimit)
 		case "symlink":
+			// What counts is when the content was last modified, not the age
+			// of the link that leads to it.
 			if targetOld {
 				return Free
 			}
 			return MustStay
 		case "dangling":
+			if n.LinkAge != 0 {
+				return Free
+			}
 			return MustStay
 		default:
 			return stayIfAllYoung(cacheAgeLimit)
@@ -297,6 +315,9 @@ func (it *Item) Expectation(ref, t0, t1 time.Time) Expect {
 			}
 			return MustStay
 		case "dangling":
+			if n.LinkAge != 0 {
+				return Free
+			}
 			return MustStay
 		default:
 			return stayIfAllYoung(stagingLimit)
@@ -311,7 +332,7 @@ func (it *Item) Expectation(ref, t0, t1 time.Time) Expect {
 func oldest(n *Node) int64 {
 	o := max(n.MAge, n.AAge)
 	if n.Kind == "symlink" {
-		o = 0
+		o = n.LinkAge
 	}
 	for _, c := range n.Children {
 		o = max(o, oldest(c))
